@@ -86,6 +86,14 @@ CLAIMED = {
             'DESIGN.md 4/C10', 'abstract collections (one arbitrary element per loop body); idx->uid lookup from C19; '
             'memory sharing of views not decided',
             'contract-based deductive verification: symbolic execution with ghost block descriptions + NIA lemmas (z3)'),
+    'C19': ('proof',
+            'GroupBase.add (duplicate => KeyError and unchanged state; otherwise next uid, registry bijection invariant kept), '
+            'get_next_idx (never a registered idx; proposal kept when free), idx2uid / _one_idx2uid (position of that idx or '
+            'KeyError), ModelData.add, IdxParam.add (unique), System.add (one idx through get_next_idx -> model.add -> '
+            'group.add), DeviceFinder.find_or_add (per-entry decision), Model.set_backref. find_idx (model, group) and '
+            'collect_ref are bounded native stand-ins, labelled bounded and not counted.',
+            'DESIGN.md 4/C19', 'abstract idx sort; dict model with domain/value arrays; bounded parts stated in evidence',
+            'contract-based deductive verification (symbolic execution + SMT) with two labelled bounded stand-ins'),
 }
 
 ALL = ['C%02d' % i for i in range(1, 21)]
